@@ -48,7 +48,9 @@ PROPS = {
     # engine 'pair': harness/pair_main.cpp over a pool with (writer type, reader type) pairs; the model
     # decoder's result on a cross-version read is, by C07_cross_version, what the property requires
     'C07': dict(engine='pair', pool='x', modes=['xver'], witness=True, values=(5, 40)),
-    'C08': dict(engine='pair', pool='x', modes=['frame'], witness=False, values=(8, 80)),
+    # the model decoder's verdict on a (mutated) table is, by C08_hash_mismatch / C08_duplicate / C08_surplus_skipped /
+    # C08_any_order / C08_smaller_size and C04_sound / C04_complete, what the property requires
+    'C08': dict(engine='pair', pool='x', modes=['frame'], witness=False, witness_ops=['dec'], values=(8, 80)),
     # the model's relation is the trait (fung lines: any disagreement is a wrong trait value on that pair)
     'C09': dict(engine='pair', pool='f', modes=['fung'], witness=False, witness_ops=['fung', 'dec'], values=(4, 40)),
     # the model dispatcher's result on a request is, by C14_call / C14_unbound / C14_bad_arguments, the required one
